@@ -47,8 +47,13 @@ class Project(object):
             for package in sys.modules:
                 modules.add(package.partition('.')[0])
 
-        for p in path:
-            pdir = os.path.join(p, *root.split('.'))
+        if root:
+            pkg_dir = self.find_package_dir(root.split('.'))
+            dirs = pkg_dir and [pkg_dir] or []
+        else:
+            dirs = path
+
+        for pdir in dirs:
             try:
                 dlist = os.listdir(pdir)
             except OSError:
@@ -67,6 +72,30 @@ class Project(object):
                         modules.add(name)
 
         return modules
+
+    def find_package_dir(self, parts):
+        # type: (list[str]) -> str | None
+        """Directory of a package, resolved one component at a time like an import
+
+        The first path entry that has the top-level name decides; sub-packages
+        are looked up in their parent's directory only.
+        """
+        dirs = self.get_path()
+        pkg_dir = None
+        for part in parts:
+            pkg_dir = None
+            for d in dirs:
+                base = os.path.join(d, part)
+                if any(os.path.exists(base + s) for s in SUFFIXES):
+                    # a plain module: it has no sub-modules and shadows later entries
+                    return None
+                if os.path.exists(os.path.join(base, '__init__.py')):
+                    pkg_dir = base
+                    break
+            if not pkg_dir:
+                return None
+            dirs = [pkg_dir]
+        return pkg_dir
 
     @contextmanager
     def check_changes(self):
@@ -95,11 +124,16 @@ class Project(object):
         except KeyError:
             pass
 
-        path = self.get_path()
+        parts = name.split('.')
+        if len(parts) > 1:
+            pkg_dir = self.find_package_dir(parts[:-1])
+            path = pkg_dir and [pkg_dir] or []
+        else:
+            path = self.get_path()
         filename = None
         is_source = False
         for p in path:
-            mpath = os.path.join(p, *name.split('.'))
+            mpath = os.path.join(p, parts[-1])
             for s in SUFFIXES:
                 fname = mpath + s
                 if os.path.exists(fname):
